@@ -289,6 +289,87 @@ theorem C27_decode_prefix_need_more (m : FrontendMsg) (rest : Bytes) (hw : wfMsg
       rw [← hb] at hl
       omega
 
+/-! ### the same for startup-phase packets (StartupMessage, SSLRequest, CancelRequest, …) -/
+
+/-- `decode_startup` asks for more exactly when fewer bytes are buffered than the packet declares
+    (or the length field itself is incomplete): the guard is `buffered < declared`, nothing else -/
+theorem C27_startup_need_more_iff (b : Bytes) :
+    decodeStartup b = .needMore ↔
+      b.length < 4 ∨ ∃ L, declaredLenStartup b = some L ∧ 8 ≤ L ∧ (b.length : Int) < L := by
+  by_cases hs : b.length < 4
+  · exact ⟨fun _ => Or.inl hs, fun _ => decodeStartup_short b hs⟩
+  · obtain ⟨b0, b1, b2, b3, tl, rfl⟩ := four_cons b hs
+    rw [decodeStartup_closed, declaredLenStartup_cons]
+    generalize i32OfBytes b0 b1 b2 b3 = L
+    have hlen : ((b0 :: b1 :: b2 :: b3 :: tl).length : Int) = tl.length + 4 := by
+      simp only [List.length_cons]; omega
+    rw [hlen]
+    by_cases h8 : L < 8
+    · rw [if_pos h8]
+      constructor
+      · intro h; exact absurd h (by simp)
+      · rintro (h | ⟨L', hL, h8', _⟩)
+        · exact absurd h hs
+        · simp only [Option.some.injEq] at hL; omega
+    · rw [if_neg h8]
+      by_cases hl : tl.length + 4 < L.toNat
+      · rw [if_pos hl]
+        exact ⟨fun _ => Or.inr ⟨L, rfl, by omega, by omega⟩, fun _ => rfl⟩
+      · rw [if_neg hl]
+        constructor
+        · intro h
+          rcases startupBody_cases (tl.take (L.toNat - 4)) (tl.drop (L.toNat - 4))
+            (take_len_ge4 tl L (by omega) hl) with ⟨_, h'⟩ | ⟨_, h'⟩ <;>
+            rw [h'] at h <;> exact absurd h (by simp)
+        · rintro (h | ⟨L', hL, h8', hlt⟩)
+          · exact absurd h hs
+          · simp only [Option.some.injEq] at hL; omega
+
+theorem declaredLenStartup_take (b : Bytes) (k : Nat) (hk : 4 ≤ k) :
+    declaredLenStartup (b.take k) = declaredLenStartup b := by
+  by_cases hs : b.length < 4
+  · rw [List.take_of_length_le (by omega)]
+  · obtain ⟨b0, b1, b2, b3, tl, rfl⟩ := four_cons b hs
+    obtain ⟨j, rfl⟩ : ∃ j, k = j + 4 := ⟨k - 4, by omega⟩
+    rfl
+
+/-- every buffer whose length field declares `L ≥ 8`, cut anywhere before `L` bytes, gives need-more:
+    for every packet `f` (whatever its kind or content) and every `k < |f|` -/
+theorem C27_startup_cut_need_more (b : Bytes) (L : Int) (hd : declaredLenStartup b = some L)
+    (h8 : 8 ≤ L) (k : Nat) (hk : (k : Int) < L) : decodeStartup (b.take k) = .needMore := by
+  apply (C27_startup_need_more_iff _).mpr
+  by_cases h4 : k < 4
+  · left; rw [List.length_take]; omega
+  · right
+    refine ⟨L, by rw [declaredLenStartup_take _ _ (by omega)]; exact hd, h8, ?_⟩
+    rw [List.length_take]; omega
+
+/-- the same for regular frames: cut anywhere before `1 + L` bytes -/
+theorem C27_decode_cut_need_more (b : Bytes) (L : Int) (hd : declaredLen b = some L)
+    (h4 : 4 ≤ L) (k : Nat) (hk : (k : Int) < 1 + L) : decode (b.take k) = .needMore := by
+  apply (C27_decode_need_more_iff _).mpr
+  by_cases h5 : k < 5
+  · left; rw [List.length_take]; omega
+  · right
+    refine ⟨L, by rw [declaredLen_take _ _ (by omega)]; exact hd, h4, ?_⟩
+    rw [List.length_take]; omega
+
+/-- every strict prefix of a well-formed startup packet or SSLRequest (followed by anything) asks for
+    more bytes — in particular the prefix that is exactly one byte short -/
+theorem C27_startup_prefix_need_more (m : FrontendMsg) (rest : Bytes) (hw : wfStartup m) (k : Nat)
+    (hk : k < (encodeStartup m).length) :
+    decodeStartup ((encodeStartup m ++ rest).take k) = .needMore := by
+  have hrt := C27_startup_roundtrip m [] hw
+  rw [List.append_nil] at hrt
+  obtain ⟨frame, L, hb, hd, h8, hl⟩ := C27_startup_frame_bound _ _ _ hrt
+  rw [List.append_nil] at hb
+  have htake : (encodeStartup m ++ rest).take k = (encodeStartup m).take k :=
+    List.take_append_of_le_length (by omega)
+  rw [htake]
+  apply C27_startup_cut_need_more _ L hd h8
+  rw [← hb] at hl
+  omega
+
 /-! ### concatenated frames -/
 
 /-- repeatedly decode up to `n` messages off a buffer (what the server's read loop does) -/
